@@ -120,3 +120,8 @@ func VerifH_aesctrhmac_aadbits() {
 	verifrt.Assert(len(b) == 8, "8-byte big-endian length")
 	verifrt.Reach("end")
 }
+
+func VerifH_c19_aesctrhmac() {
+	a, _ := build(false)
+	verifh.CheckAEADNoWrite(a)
+}
